@@ -23,8 +23,14 @@ def lit_variants(y, mo, d, r):
     h, mi, s = r.below(24), r.below(60), r.below(60)
     sep = r.choice(["-", ":"])
     day = "%04d%s%02d%s%02d" % (y, sep, mo, sep, d)
-    return [(day, "day"), (day + " %02d" % h, "hour"), (day + " %02d:%02d" % (h, mi), "minute"),
-            (day + " %02d:%02d:%02d" % (h, mi, s), "second")]
+    out = [(day, "day"), (day + " %02d" % h, "hour"), (day + " %02d:%02d" % (h, mi), "minute"),
+           (day + " %02d:%02d:%02d" % (h, mi, s), "second")]
+    # zero fields are written fields, not missing ones
+    z = r.below(4)
+    out.append([(day + " %02d:%02d:00" % (h, mi), "second"), (day + " %02d:00:00" % h, "second"),
+                (day + " 00:00:00", "second"), (day + " %02d:00" % h, "minute")][z])
+    out.append((day + " 00", "hour"))
+    return out
 
 
 def run(ctx):
